@@ -175,4 +175,21 @@ def c13(pc):
                 cur = op[1]
                 seq.set_sequence_start(ss.AccountReplySequenceStart.from_value(cur))
         checked += 1
-    return {"native_sweep": {"histories_checked": checked, "depth": depth, "exhaustive": True}}
+    # long runs (several hundred requests, covering any wrap-around of an internal counter)
+    rng = random.Random(pc.seed)
+    for trial in range(20 if pc.tier == "quick" else 400):
+        seq = ps.PacketSequencer(ss.SequenceStart.zero())
+        cur = 0
+        hist = []
+        for served in range(1200):
+            if rng.random() < 0.02:
+                cur = rng.randrange(0, 1757)
+                seq.set_sequence_start(ss.AccountReplySequenceStart.from_value(cur))
+                hist.append(f"set({cur})")
+            r = seq.next_sequence()
+            if r != cur + served % 10:
+                _fail(pc, "eolib.packet.packet_sequencer.PacketSequencer.next_sequence",
+                      {"history": f"{served + 1} next_sequence calls, updates at: {hist[-5:]}"},
+                      f"request n={served} returned {r}, expected {cur + served % 10}")
+                return {"native_sweep": {"histories_checked": checked}}
+    return {"native_sweep": {"histories_checked": checked, "depth": depth, "exhaustive": True, "long_runs_of": 1200}}
